@@ -225,6 +225,70 @@ def helper_units(repo):
     return out
 
 
+# ----------------------------------------------------------------------------- comparison operators at the shape-reading sites
+# helper calls that ARE a comparison / a guard on dims or shapes
+CMP_CALLS = {"same_dim", "same_shape", "_same_shape", "_merge_shapes", "is_static", "is_dynamic", "has_unknown_dim", "has_rank",
+             "broadcast_keeps_rank", "_known_equal"}
+# isinstance(x, T) is a guard on a dim / shape only for these T
+DIM_TYPES = {"int", "ir.SymbolicDim", "SymbolicDim", "ir.Shape"}
+_OPS = {"Eq", "NotEq", "Lt", "LtE", "Gt", "GtE", "Is", "IsNot", "In", "NotIn"}
+
+
+def _is_none(n):
+    return isinstance(n, ast.Constant) and n.value is None
+
+
+def comparisons_in(node, where):
+    """Every comparison of a unit, in source order, as text `Op: left ; right` / `call f: args [@receiver]` / `isinstance: x ; T`.
+    Left out by rule (not comparisons of dims): presence tests `x is (not) None`, isinstance against a type outside DIM_TYPES."""
+    found = []
+    for n in ast.walk(node):
+        if isinstance(n, ast.Compare):
+            ops = [type(o).__name__ for o in n.ops]
+            for o in ops:
+                if o not in _OPS:
+                    raise Broken(f"{where}: unknown comparison operator {o} (line {n.lineno})")
+            operands = [n.left] + list(n.comparators)
+            if all(o in ("Is", "IsNot") for o in ops) and any(_is_none(x) for x in operands):
+                continue
+            found.append((n.lineno, n.col_offset, ",".join(ops) + ": " + " ; ".join(ast.unparse(x) for x in operands)))
+        elif isinstance(n, ast.Call):
+            f = n.func
+            name = f.id if isinstance(f, ast.Name) else (f.attr if isinstance(f, ast.Attribute) else None)
+            if name == "isinstance":
+                if len(n.args) != 2 or n.keywords:
+                    raise Broken(f"{where}: isinstance with {len(n.args)} arguments (line {n.lineno})")
+                ty = n.args[1]
+                tys = [ast.unparse(e) for e in ty.elts] if isinstance(ty, ast.Tuple) else [ast.unparse(ty)]
+                if any(x in DIM_TYPES for x in tys):
+                    found.append((n.lineno, n.col_offset, "isinstance: " + ast.unparse(n.args[0]) + " ; " + ast.unparse(ty)))
+            elif name in CMP_CALLS:
+                recv = " @" + ast.unparse(f.value) if isinstance(f, ast.Attribute) else ""
+                args = [ast.unparse(a) for a in n.args] + [f"{kw.arg}={ast.unparse(kw.value)}" for kw in n.keywords]
+                found.append((n.lineno, n.col_offset, f"call {name}: " + " ; ".join(args) + recv))
+    return [txt for _, _, txt in sorted(found)]
+
+
+def comparison_units(repo):
+    """[(key "file:unit", [comparison text])] for every module-level function / class of the anchored files whose body
+    reads shape information (non-empty direct feature set), in source order."""
+    out = []
+    for rel in [CF] + RULE_FILES + [HELPERS]:
+        tree = _parse(repo, rel)
+        short = os.path.basename(rel)
+        seen = set()
+        for st in tree.body:
+            if isinstance(st, (ast.FunctionDef, ast.AsyncFunctionDef, ast.ClassDef)):
+                feats, _ = _names_in(st)
+                if not feats:
+                    continue
+                if st.name in seen:
+                    raise Broken(f"{rel}: {st.name} is defined twice at module level")
+                seen.add(st.name)
+                out.append((f"{short}:{st.name}", comparisons_in(st, f"{rel}:{st.name}")))
+    return out
+
+
 def collect(repo):
     ev = evaluators(repo)
     units = []
@@ -234,7 +298,7 @@ def collect(repo):
     return ev, units
 
 
-def coq_text(ev, units):
+def coq_text(ev, units, cmps=None):
     lines = ["(* GENERATED by harness/c09_users.py from the current source: do not edit. *)",
              "From Coq Require Import String List.", "Import ListNotations.", "Local Open Scope string_scope.", "",
              "(* key = \"Op/function\" of every @register'd partial evaluator of _constant_folding.py, with the shape-reading",
@@ -245,17 +309,25 @@ def coq_text(ev, units):
     lines += ["", "(* key = \"file:unit\" of every rewrite-rule class / RewriteRule object / shape helper of the anchored files *)",
               "Definition rule_units : list (string * list string) :="]
     lines.append("  " + clist([f"({cstr(f + ':' + u)}, {clist([cstr(x) for x in feats])})" for f, u, k, feats in units]) + ".")
+    if cmps is not None:
+        lines += ["", "(* key = \"file:unit\" of every module-level function / class of the anchored files that reads shape information, with every",
+                  "   comparison of its body in source order: `Op: left ; right`, `call helper: args @receiver`, `isinstance: x ; T`",
+                  "   (presence tests against None and isinstance against non-dim types are left out by rule) *)",
+                  "Definition comparisons : list (string * list string) :="]
+        lines.append("  " + clist(["\n   (" + cstr(k) + ", " + clist([cstr(x) for x in cs]) + ")" for k, cs in cmps]) + ".")
     return "\n".join(lines) + "\n"
 
 
 def regenerate(ctx):
     try:
         ev, units = collect(common.REPO)
+        cmps = comparison_units(common.REPO)
     except Broken as e:
         ctx.tie_broken("translator", "ShapeUsers", str(e))
         # keep the previous file: the proof over it still runs, the tie is reported as broken
         return None
-    ctx.gen("ShapeUsers", coq_text(ev, units))
+    ctx.gen("ShapeUsers", coq_text(ev, units, cmps))
+    ctx.c09_comparisons = cmps
     return ev, units
 
 
@@ -265,3 +337,7 @@ if __name__ == "__main__":
         print(x)
     for x in u:
         print(x)
+    for k, cs in comparison_units(common.REPO):
+        print(k)
+        for c in cs:
+            print("     ", c)
